@@ -16,7 +16,7 @@ TECHNIQUE = "runtime monitor with fault injection: exhaustive single (and sample
 RULE = ("program p = i // 16 (4-12 executed events, float/int/Duration clocks); variants 0-11 inject a fault into the "
         "v-th executed event (all singles), variants 12-15 inject pairs / random subsets; the raise position inside "
         "the handler's action list varies (before / between / after its scheduling actions); strategy in {log, warn, "
-        "pause} (set plain or with an explicit log level, switched by handlers, incl. refused switches to non-existent strategies) x driver in {start, bounded, step, mixed}; non-trivial = at least one injected fault was reached and "
+        "pause} (set plain or with an explicit log level, switched by handlers, incl. refused switches to non-existent strategies) x driver in {start, bounded, step, mixed} x {fresh simulator, initialised once before, initialised and cleaned up before}; non-trivial = at least one injected fault was reached and "
         "events were still pending when it fired; distinct = canonical (program, fault set, strategy, driver) hash")
 ASSUMPTIONS = ["WARN_AND_END / WARN_AND_EXIT are outside the statement",
                "a failing handler raises RuntimeError, KeyError, a BaseException subclass that is not an Exception, or SystemExit",
@@ -111,6 +111,16 @@ def run_case(case, ctx):
     span = ref.end - ref.start
     pending_at_fault = [False]
     try:
+        # the strategy is a setting of the simulator, chosen once: it is still in force in a later replication
+        prelude = [None, None, None, "initialized-before", "initialized-and-cleaned-up-before"][(sum(case["cuts"]) + case["nsteps"]) % 5] \
+            if "prelude" not in case else case["prelude"]
+        if prelude:
+            ctx.count("cases_with_an_earlier_initialisation")
+            h.cmd("initialize")
+            if prelude == "initialized-and-cleaned-up-before":
+                h.cmd("cleanup")
+            h.reset_logs()
+            where["earlier"] = prelude
         if h.cmd("initialize") != "ok":
             ctx.viol("initialize-raises", where)
             return
